@@ -1,13 +1,13 @@
 """C02 - ordered super-reconciliation returns a minimum-cost labelled reconciliation."""
 from .. import gen, pkg
-from ..plain import Instance, labeling_losses
+from ..plain import INF, Instance, labeling_losses
 from ..runner import Result, Violation
 from ..solver_common import common_labels, prescribed_root_of, reference, solution_features, validate_output
 
 ID = "C02"
 LEVEL = "exploration"
 LEVEL_TEXT = (
-    "Random search (Hypothesis, 16 seeded shards) against an independent optimum over all species mappings x all compatible "
+    "Bounded-exhaustive (all inputs <=3x3 leaves, <=2-3 families, cost grid) plus random search (Hypothesis, 16 seeded shards) against an independent optimum over all species mappings x all compatible "
     "root orders x all synteny labellings (memoised recursion cross-checked by plain enumeration on every case that fits): "
     "finds wrong optima, invalid labellings, exceptions and non-empty results for inconsistent orders within <=5 object leaves, "
     "<=4 species leaves, <=4 families, costs <=3."
@@ -16,10 +16,10 @@ LEVEL_NOTE = (
     "Trusted: harness/plain.py event model and run counting on lists, harness/oracles.py (two oracle levels cross-checked per case), "
     "Hypothesis. Costs inside spe + 2*sloss <= dup + 2*floss (F-COHERENCE outside). Leaf syntenies non-empty, families distinct per leaf."
 )
-TECHNIQUE = "property-based testing: Hypothesis random inputs vs brute-force/recursive ordered super-reconciliation oracle"
+TECHNIQUE = "property-based testing: bounded-exhaustive + Hypothesis random inputs vs brute-force/recursive ordered super-reconciliation oracle"
 DESIGN_REF = "DESIGN.md section 5 (C02), 4.3, 4.7"
 RULE = (
-    "Hypothesis cases: binary object tree (<=5 leaves; thorough <=7), species tree (<=4 leaves; thorough <=6), leaf assignment, <=4 families, each leaf a "
+    "Bounded-exhaustive layer (see exhaustive_layer) + Hypothesis cases: binary object tree (<=5 leaves; thorough <=7), species tree (<=4 leaves; thorough <=6), leaf assignment, <=4 families, each leaf a "
     "non-empty subset in a hidden global order (75%) or an arbitrary order (25%, possibly inconsistent), optional prescribed root "
     "order, coherent costs incl. sloss=0.  Checked: sreconcile_extended_spfs (ALL, ANY) cost == optimum over all mappings x root "
     "orders x labellings; sreconcile_base_spfs == optimum with the LCA mapping; empty result iff no root order exists; every "
@@ -33,6 +33,13 @@ ASSUMPTIONS = [
 ]
 BUDGET = {"quick": {"random": 5000}, "thorough": {"random": 60000}}
 FUZZ = {"thorough": {"runs": 20000, "max_time": 900}}
+EXHAUSTIVE_RULE = {
+    "quick": "every plane binary object shape <=3 leaves x species shape <=3 leaves x leaf assignment x every assignment of a non-empty sequence of "
+             "distinct families over <=2 families to each leaf (consistent and inconsistent orders alike; 8 310 inputs), each with 4 of the 141 cost "
+             "vectors of {0,1,2}^4 x hgt {0,1,inf} inside the region (rotating residues: every vector meets 1/35 of the inputs)",
+    "thorough": "the same inputs with all 141 cost vectors, plus object <=3 x species <=2 leaves x <=3 families (59 484 inputs) with 20 vectors each",
+}
+EXHAUSTIVE_COMPLETE = False  # the random layer is not exhaustive
 
 
 def strategy(tier):
@@ -40,6 +47,28 @@ def strategy(tier):
         # beyond plain enumeration's comfort zone: the recursion oracle decides, cross-checked where enumeration still fits
         return gen.rec_case(max_obj=7, max_sp=6, costs="coherent", labelled=True, max_fam=4, prescribed_root=True)
     return gen.rec_case(max_obj=5, max_sp=4, costs="coherent", labelled=True, max_fam=4, prescribed_root=True)
+
+
+def exhaustive(tier):
+    if tier == "quick":
+        return [("a", i, 32, 35) for i in range(32)]
+    return [("a", i, 64, 1) for i in range(64)] + [("b", i, 64, 7) for i in range(64)]
+
+
+def run_job(job):
+    layer, idx, mod, stride = job
+    grid = list(gen.cost_grid((0, 1, 2), (0, 1, INF), labelled=True))
+    sizes = (3, 3, 2) if layer == "a" else (3, 2, 3)
+    for k, base in enumerate(gen.all_labelled_inputs(*sizes, ordered=True)):
+        if k % mod != idx:
+            continue
+        if layer == "b" and len({f for s in base["leaf_syntenies"].values() for f in s}) < 3:
+            continue  # <=2 families on these shapes are part of layer a
+        for j, c in enumerate(grid):
+            if (k * 7 + j) % stride == 0:
+                case = dict(base)
+                case["costs"] = c
+                yield case
 
 
 def check(case):
